@@ -41,6 +41,8 @@ def case_st(draw):
         c["vol"] = draw(st.integers(0, len(c["starts"]) - 1))
         # the volume table need not list the volumes in disc order: a volume ends where the PHYSICALLY next one begins
         c["rot"] = draw(st.sampled_from([0, 0, 1, 2, 5]))
+        # the volume's OWN catalogue may state more sectors than the volume table leaves it (the table decides)
+        c["overclaim"] = draw(st.sampled_from([0, 0, 1, 18, 300, 1023]))
     elif kind == "mmb":
         c["slot"] = draw(st.sampled_from([0, 1, 2, 100, 509]))
         c["total"] = draw(st.sampled_from([800, 800, 400]))
@@ -114,8 +116,11 @@ class C17(CheckBase):
                         ents.insert(0, _ent(b"PROBE", pstart, plen, 99))
                         entsc.insert(0, _ent(b"PROBE", pstart, inb, 99))
                         probe = (pstart, plen, inb)
+                    claim = min(vlen + (case.get("overclaim", 0) if i == vi else 0), 1023)
+                    if claim > vlen:
+                        v.classes.append("opus-catalogue-claims-more-than-its-extent")
                     mk = lambda e_: {"label": "ABCDEFGH"[i], "start_track": stt, "title": b"V%d" % i, "cycle": i,
-                                     "boot": 0, "total": min(vlen, 1023), "cats": [e_]}
+                                     "boot": 0, "total": max(claim, 18), "cats": [e_]}
                     vols_full.append(mk(ents))
                     vols_clip.append(mk(entsc))
                 sf = {"variant": "opus", "tracks": tracks, "spt": spt, "fill": {"kind": "rand", "seed": case["seed"]},
